@@ -27,7 +27,35 @@ type edgeRec [3]int64 // u, v, weight token
 type stateRec struct {
 	Nodes []int64   `json:"nodes"`
 	Edges []edgeRec `json:"edges"`
+	// GraphDense.tla only: which constructor built the graph ("no": none yet) and the payload
+	// token of the node object the graph holds for each id
+	Built string     `json:"built,omitempty"`
+	Obj   [][2]int64 `json:"obj,omitempty"`
 }
+
+// evRec is the VALUE returned for the edge (u,v) and the value its ReversedEdge must be.
+type evRec struct {
+	U  int64 `json:"u"`
+	V  int64 `json:"v"`
+	W  int64 `json:"w"`
+	RF int64 `json:"rf"`
+	RT int64 `json:"rt"`
+	RW int64 `json:"rw"`
+}
+
+// tokens of GraphDense.tla for the node objects
+const (
+	anyTok   = 8 // identity left open (after a panicking SetEdge)
+	plainTok = 9 // a simple.Node made by the graph itself
+)
+
+// pnode is a node object with a payload, so that WHICH object a graph returns can be observed.
+type pnode struct {
+	id  int64
+	pay int64
+}
+
+func (n pnode) ID() int64 { return n.id }
 
 type wRec struct {
 	U int64  `json:"u"`
@@ -47,6 +75,9 @@ type fullState struct {
 	W     []wRec             `json:"w"`
 	Deg   map[string]int     `json:"deg"`
 	UFrom map[string][]int64 `json:"ufrom"`
+	Ev    []evRec            `json:"ev"`
+	Built string             `json:"built,omitempty"`
+	Obj   [][2]int64         `json:"obj,omitempty"`
 }
 
 type opRec struct {
@@ -54,6 +85,16 @@ type opRec struct {
 	U  int64  `json:"u"`
 	V  int64  `json:"v"`
 	W  int64  `json:"w"`
+	// GraphDense.tla: payload of the node objects of a SetEdge call; constructor arguments
+	P    int64   `json:"p,omitempty"`
+	Kind string  `json:"kind,omitempty"`
+	N    int     `json:"n,omitempty"`
+	Ord  []int64 `json:"ord,omitempty"`
+	Init int64   `json:"init,omitempty"`
+	Self int64   `json:"self,omitempty"`
+	// Pan marks a call in the middle of a history that the model says panics (the history goes on
+	// with the graph as the recovered panic left it)
+	Pan bool `json:"pan,omitempty"`
 }
 
 type transRec struct {
@@ -74,6 +115,17 @@ type histCase struct {
 	Out    string     `json:"out"`
 	Expect *fullState `json:"expect"`
 	IDs    []int64    `json:"ids"`
+	Absent int64      `json:"absent,omitempty"` // dense graphs: the weight that means "no edge"
+}
+
+func keyOf(s *stateRec) string {
+	k := key(s.Nodes, s.Edges)
+	if s.Built != "" {
+		o := append([][2]int64(nil), s.Obj...)
+		sort.Slice(o, func(i, j int) bool { return o[i][0] < o[j][0] })
+		k += fmt.Sprint(s.Built, o)
+	}
+	return k
 }
 
 func key(n []int64, e []edgeRec) string {
@@ -106,14 +158,28 @@ var kinds = []kind{
 	{"simple.UndirectedGraph", false, false, 0, func() graph.Graph { return simple.NewUndirectedGraph() }},
 	{"simple.WeightedDirectedGraph", true, true, 0, func() graph.Graph { return simple.NewWeightedDirectedGraph(selfW, absentW) }},
 	{"simple.WeightedUndirectedGraph", false, true, 0, func() graph.Graph { return simple.NewWeightedUndirectedGraph(selfW, absentW) }},
-	{"simple.DirectedMatrix", true, true, 3, func() graph.Graph { return simple.NewDirectedMatrix(3, 0, selfW, 0) }},
-	{"simple.UndirectedMatrix", false, true, 3, func() graph.Graph { return simple.NewUndirectedMatrix(3, 0, selfW, 0) }},
-	{"simple.DirectedMatrixFrom", true, true, 3, func() graph.Graph {
-		return simple.NewDirectedMatrixFrom([]graph.Node{simple.Node(0), simple.Node(1), simple.Node(2)}, 0, selfW, 0)
-	}},
-	{"simple.UndirectedMatrixFrom", false, true, 3, func() graph.Graph {
-		return simple.NewUndirectedMatrixFrom([]graph.Node{simple.Node(0), simple.Node(1), simple.Node(2)}, 0, selfW, 0)
-	}},
+	// the dense types are built by the Construct call of the history (GraphDense.tla)
+	{"simple.DirectedMatrix", true, true, 1, nil},
+	{"simple.UndirectedMatrix", false, true, 1, nil},
+}
+
+// construct performs one constructor call of a dense type: kind "plain" is New*Matrix(n, ...),
+// kind "from" is New*MatrixFrom(nodes, ...) with node objects of payload 0 in the order ord.
+func construct(directed bool, kind string, n int, ord []int64, init, self, absent float64) graph.Graph {
+	if kind == "plain" {
+		if directed {
+			return simple.NewDirectedMatrix(n, init, self, absent)
+		}
+		return simple.NewUndirectedMatrix(n, init, self, absent)
+	}
+	nodes := make([]graph.Node, len(ord))
+	for i, id := range ord {
+		nodes[i] = pnode{id: id, pay: 0}
+	}
+	if directed {
+		return simple.NewDirectedMatrixFrom(nodes, init, self, absent)
+	}
+	return simple.NewUndirectedMatrixFrom(nodes, init, self, absent)
 }
 
 func kindByName(n string) *kind {
@@ -134,10 +200,39 @@ type live struct {
 	note []string
 	// derived: this wrapper holds a copy being checked; do not derive further graphs from it
 	derived bool
+	// dense graphs: the values the constructor was called with, and the payload token expected
+	// for the node object of each id in the state being checked (nil: not tracked)
+	selfV, absentV float64
+	obj            map[int64]int64
 }
 
 func newLive(k *kind) *live {
-	return &live{k: k, g: k.mk(), m2r: map[int64]int64{}, r2m: map[int64]int64{}}
+	l := &live{k: k, m2r: map[int64]int64{}, r2m: map[int64]int64{}, selfV: selfW, absentV: absentW}
+	if k.mk != nil {
+		l.g = k.mk()
+	}
+	return l
+}
+
+// seeNode compares the node OBJECT a query returned with the one the model says the graph holds.
+func (l *live) seeNode(what string, n graph.Node, errs *[]string) {
+	if l.obj == nil || n == nil {
+		return
+	}
+	want, ok := l.obj[l.model(n.ID())]
+	if !ok || want == anyTok {
+		return
+	}
+	got := int64(-1)
+	switch v := n.(type) {
+	case pnode:
+		got = v.pay
+	case simple.Node:
+		got = plainTok
+	}
+	if got != want {
+		*errs = append(*errs, fmt.Sprintf("%s: node %d is the object %#v (token %d), the model holds token %d", what, l.model(n.ID()), n, got, want))
+	}
 }
 
 // real returns the real id bound to model id m, binding it to itself (or the
@@ -164,12 +259,7 @@ func (l *live) model(r int64) int64 {
 	return r + 1_000_000 // an id the model never uses: shows up as a mismatch
 }
 
-func (l *live) absent() float64 {
-	if l.k.dense > 0 {
-		return 0
-	}
-	return absentW
-}
+func (l *live) absent() float64 { return l.absentV }
 
 // apply performs one mutator call. It returns the outcome and, when the
 // operation cannot be expressed on this type, skip=true.
@@ -216,6 +306,28 @@ func (l *live) apply(o opRec, liveNodes map[int64]bool) (out core.Outcome, probl
 	case "RemoveEdge":
 		u, v := l.real(o.U), l.real(o.V)
 		out = core.Call(func() { l.g.(graph.EdgeRemover).RemoveEdge(u, v) })
+	case "Construct":
+		if l.g != nil {
+			return out, "Construct on a graph that exists"
+		}
+		l.selfV = float64(o.Self)
+		var g graph.Graph
+		out = core.Call(func() { g = construct(l.k.directed, o.Kind, o.N, o.Ord, float64(o.Init), l.selfV, l.absentV) })
+		if !out.Panicked {
+			l.g = g
+		}
+	case "SetWeightedEdge", "SetUnitEdge":
+		if l.g == nil {
+			return out, o.Op + " before Construct"
+		}
+		u, v := l.real(o.U), l.real(o.V)
+		out = core.Call(func() {
+			if o.Op == "SetUnitEdge" {
+				l.g.(interface{ SetEdge(graph.Edge) }).SetEdge(simple.Edge{F: pnode{u, o.P}, T: pnode{v, o.P}})
+			} else {
+				l.g.(interface{ SetWeightedEdge(graph.WeightedEdge) }).SetWeightedEdge(simple.WeightedEdge{F: pnode{u, o.P}, T: pnode{v, o.P}, W: float64(o.W)})
+			}
+		})
 	default:
 		return out, "unknown op " + o.Op
 	}
@@ -276,6 +388,7 @@ func (l *live) drainNodes(what string, it graph.Nodes, errs *[]string) map[int64
 			bad("element %d enumerated twice", m)
 		}
 		got[m] = true
+		l.seeNode(what, nd, errs)
 		if n >= 0 && it.Len() != n-cnt {
 			bad("Len()=%d after %d of %d Next calls", it.Len(), cnt, n)
 		}
@@ -399,12 +512,84 @@ func (l *live) drainEdges(what string, it graph.Iterator, cur func() graph.Edge,
 	return got
 }
 
+// checkEdgeValue compares a returned edge VALUE (simple.Edge / simple.WeightedEdge) with the one
+// the specification printed for its ends: the node objects at its ends, its weight (read twice)
+// and the value ReversedEdge returns, which reversed again must be the value itself.
+func (l *live) checkEdgeValue(what string, e graph.Edge, evs map[edgeKey]evRec, have bool, errs *[]string) {
+	bad := func(f string, a ...any) { *errs = append(*errs, what+": "+fmt.Sprintf(f, a...)) }
+	l.seeNode(what+" From()", e.From(), errs)
+	l.seeNode(what+" To()", e.To(), errs)
+	if !have {
+		return
+	}
+	f, t := l.model(e.From().ID()), l.model(e.To().ID())
+	ev, ok := evs[edgeKey{f, t}]
+	if !ok {
+		bad("edge value with ends (%d,%d), which the model does not have", f, t)
+		return
+	}
+	weightIs := func(name string, x graph.Edge, want int64) {
+		if !l.k.weighted {
+			return
+		}
+		wx, ok := x.(graph.WeightedEdge)
+		if !ok {
+			// the unweighted interface of a weighted container may hand out unweighted values
+			if _, isW := e.(graph.WeightedEdge); isW {
+				bad("%s of a weighted edge value is a %T", name, x)
+			}
+			return
+		}
+		for call := 1; call <= 2; call++ {
+			if w := wx.Weight(); w != float64(want) {
+				bad("%s.Weight() call %d = %v, model %d", name, call, w, want)
+			}
+		}
+	}
+	weightIs("value", e, ev.W)
+	r := e.ReversedEdge()
+	if r == nil {
+		bad("ReversedEdge() is nil")
+		return
+	}
+	if rf, rt := l.model(r.From().ID()), l.model(r.To().ID()); rf != ev.RF || rt != ev.RT {
+		bad("ReversedEdge() has ends (%d,%d), model (%d,%d)", rf, rt, ev.RF, ev.RT)
+	}
+	weightIs("ReversedEdge()", r, ev.RW)
+	if rr := r.ReversedEdge(); rr == nil || l.model(rr.From().ID()) != ev.U || l.model(rr.To().ID()) != ev.V {
+		bad("ReversedEdge().ReversedEdge() = %v, model (%d,%d)", rr, ev.U, ev.V)
+	} else {
+		weightIs("ReversedEdge().ReversedEdge()", rr, ev.W)
+	}
+}
+
 // checkState compares every query of the real container with the answers the
 // specification printed for the abstract state.
 func (l *live) checkState(st *fullState, ids []int64) []string {
 	var errs []string
 	bad := func(f string, a ...any) { errs = append(errs, fmt.Sprintf(f, a...)) }
 	g := l.g
+	if st.Built == "no" {
+		// no graph exists (the constructor call must have panicked): nothing to query
+		if g != nil {
+			bad("a graph exists although the model says that no constructor call succeeded")
+		}
+		return errs
+	}
+	if g == nil {
+		return []string{"no graph was built"}
+	}
+	l.obj = nil
+	if st.Built != "" {
+		l.obj = map[int64]int64{}
+		for _, o := range st.Obj {
+			l.obj[o[0]] = o[1]
+		}
+	}
+	evs := map[edgeKey]evRec{}
+	for _, e := range st.Ev {
+		evs[edgeKey{e.U, e.V}] = e
+	}
 	wantNodes := setOf(st.Nodes)
 
 	gotNodes := l.drainNodes("Nodes()", g.Nodes(), &errs)
@@ -419,6 +604,8 @@ func (l *live) checkState(st *fullState, ids []int64) []string {
 		}
 		if n != nil && n.ID() != r {
 			bad("Node(%d).ID() = %d", r, n.ID())
+		} else {
+			l.seeNode(fmt.Sprintf("Node(%d)", m), n, &errs)
 		}
 		if nw, ok := g.(graph.NodeWithIDer); ok {
 			nn, isNew := nw.NodeWithID(r)
@@ -479,6 +666,7 @@ func (l *live) checkState(st *fullState, ids []int64) []string {
 				if l.k.directed && (f != mu || t != mv) {
 					bad("Edge(%d,%d) is oriented (%d,%d)", mu, mv, f, t)
 				}
+				l.checkEdgeValue(fmt.Sprintf("Edge(%d,%d)", mu, mv), e, evs, st.Ev != nil, &errs)
 			}
 			if ud, ok := g.(graph.Undirected); ok {
 				eb := ud.EdgeBetween(u, v)
@@ -493,7 +681,7 @@ func (l *live) checkState(st *fullState, ids []int64) []string {
 				var wok bool
 				switch exp.K {
 				case "self":
-					ww, wok = selfW, true
+					ww, wok = l.selfV, true
 				case "edge":
 					ww, wok = float64(exp.W), true
 				default:
@@ -508,6 +696,9 @@ func (l *live) checkState(st *fullState, ids []int64) []string {
 				}
 				if we != nil && exp.K == "edge" && we.Weight() != float64(exp.W) {
 					bad("WeightedEdge(%d,%d).Weight() = %v, model %v", mu, mv, we.Weight(), exp.W)
+				}
+				if we != nil {
+					l.checkEdgeValue(fmt.Sprintf("WeightedEdge(%d,%d)", mu, mv), we, evs, st.Ev != nil, &errs)
 				}
 			}
 		}
@@ -568,7 +759,7 @@ func (l *live) checkState(st *fullState, ids []int64) []string {
 			if errc.Panicked {
 				bad("graph.Copy panicked: %s", errc.Text)
 			} else {
-				l2 := &live{k: l.k, g: dst, m2r: l.m2r, r2m: l.r2m, derived: true}
+				l2 := &live{k: l.k, g: dst, m2r: l.m2r, r2m: l.r2m, derived: true, selfV: l.selfV, absentV: l.absentV}
 				for _, e := range l2.checkState(st, ids) {
 					bad("graph.Copy: %s", e)
 				}
@@ -590,9 +781,11 @@ func (l *live) checkState(st *fullState, ids []int64) []string {
 		if len(got) != len(wantE) {
 			bad("Edges() has %d edges, model %d", len(got), len(wantE))
 		}
-		for k := range got {
+		for k, e := range got {
 			if _, ok := wantE[k]; !ok {
 				bad("Edges() contains %v which the model does not", k)
+			} else {
+				l.checkEdgeValue(fmt.Sprintf("Edges() item %v", k), e, evs, st.Ev != nil, &errs)
 			}
 		}
 	}
@@ -627,6 +820,8 @@ func (l *live) checkState(st *fullState, ids []int64) []string {
 				bad("WeightedEdges() contains %v which the model does not", k)
 			} else if e.(graph.WeightedEdge).Weight() != float64(w) {
 				bad("WeightedEdges() weight of %v = %v, model %v", k, e.(graph.WeightedEdge).Weight(), w)
+			} else {
+				l.checkEdgeValue(fmt.Sprintf("WeightedEdges() item %v", k), e, evs, st.Ev != nil, &errs)
 			}
 		}
 	}
@@ -643,9 +838,10 @@ func runHistory(c *histCase, sum *core.Summary) {
 	l := newLive(k)
 	liveNodes := map[int64]bool{}
 	if k.dense > 0 {
-		for i := 0; i < k.dense; i++ {
-			liveNodes[int64(i)] = true
-			l.real(int64(i))
+		// dense graphs: model ids are the real ids; the history starts with the constructor call
+		l.absentV = float64(c.Absent)
+		for _, m := range c.IDs {
+			l.real(m)
 		}
 	}
 	sig := func(s string) string { return fmt.Sprintf("graph:%s:%s:%s", c.Type, c.Ops[len(c.Ops)-1].Op, s) }
@@ -656,7 +852,7 @@ func runHistory(c *histCase, sum *core.Summary) {
 			sum.Fail(sig("allocator"), fmt.Sprintf("step %d %+v: %s", i, o, problem), c)
 			return
 		}
-		wantPanic := lastOp && c.Out == "panic"
+		wantPanic := (lastOp && c.Out == "panic") || (!lastOp && o.Pan)
 		if out.Panicked != wantPanic {
 			sum.Fail(sig("panic-mismatch"), fmt.Sprintf("step %d %+v: panicked=%v (%s), model says %v", i, o, out.Panicked, out.Text, wantPanic), c)
 			return
@@ -688,12 +884,16 @@ func runHistory(c *histCase, sum *core.Summary) {
 func replaySimple(in *core.Lines, args []string, seed int64, sum *core.Summary) error {
 	var types []string
 	ids := []int64{}
+	var absent int64
 	for _, a := range args {
 		if strings.HasPrefix(a, "types=") {
 			types = strings.Split(a[6:], ",")
 		}
 		if strings.HasPrefix(a, "ids=") {
 			json.Unmarshal([]byte(a[4:]), &ids)
+		}
+		if strings.HasPrefix(a, "absent=") {
+			fmt.Sscan(a[7:], &absent)
 		}
 	}
 	states := map[string]*fullState{}
@@ -716,7 +916,7 @@ func replaySimple(in *core.Lines, args []string, seed int64, sum *core.Summary) 
 			if err := json.Unmarshal(b, st); err != nil {
 				return err
 			}
-			states[key(st.Nodes, st.Edges)] = st
+			states[keyOf(&stateRec{Nodes: st.Nodes, Edges: st.Edges, Built: st.Built, Obj: st.Obj})] = st
 		case "t":
 			t := new(transRec)
 			if err := json.Unmarshal(b, t); err != nil {
@@ -739,32 +939,51 @@ func replaySimple(in *core.Lines, args []string, seed int64, sum *core.Summary) 
 	}
 	// shortest history reaching every state, from the BFS order of the dump
 	path := map[string][]opRec{}
-	var initKey string
+	// dense graphs: the constructor calls that lead from "no graph" to the same state are
+	// interchangeable as the first call of a history (the specification gives them one and the
+	// same post-state): alts[root] lists them, root[state] is the first built state on its path
+	alts := map[string][]opRec{}
+	root := map[string]string{}
 	for _, t := range trans {
-		sk, tk := key(t.S.Nodes, t.S.Edges), key(t.T.Nodes, t.T.Edges)
+		sk, tk := keyOf(&t.S), keyOf(&t.T)
 		if len(path) == 0 {
-			initKey = sk
 			path[sk] = []opRec{}
 		}
-		if _, ok := path[tk]; !ok && t.Out == "ok" {
+		if t.Op.Op == "Construct" && t.Out == "ok" {
+			alts[tk] = append(alts[tk], t.Op)
+		}
+		// (a state first reached by a panicking call - GraphDense.tla: the identity of a node object
+		// is left open by a panicking SetEdge - is reached through that call, marked Pan)
+		if _, ok := path[tk]; !ok && (t.Out == "ok" || t.S.Built != "") {
 			p, ok := path[sk]
 			if !ok {
 				return fmt.Errorf("transition from a state with no known history: %s", sk)
 			}
-			path[tk] = append(append([]opRec{}, p...), t.Op)
+			op := t.Op
+			op.Pan = t.Out == "panic"
+			path[tk] = append(append([]opRec{}, p...), op)
+			if t.Op.Op == "Construct" {
+				root[tk] = tk
+			} else {
+				root[tk] = root[sk]
+			}
 		}
 	}
-	_ = initKey
 	distinct := map[string]bool{}
-	for _, t := range trans {
-		sk, tk := key(t.S.Nodes, t.S.Edges), key(t.T.Nodes, t.T.Edges)
+	for ti, t := range trans {
+		sk, tk := keyOf(&t.S), keyOf(&t.T)
 		exp := states[tk]
 		if exp == nil {
 			return fmt.Errorf("no state record for %s", tk)
 		}
 		ops := append(append([]opRec{}, path[sk]...), t.Op)
+		if a := alts[root[sk]]; len(ops) > 1 && len(a) > 1 {
+			// every history is replayed behind one of the equivalent constructor calls, chosen by
+			// the position of the transition and the seed (all node orders, both constructors' self values)
+			ops[0] = a[(ti+int(seed%1000))%len(a)]
+		}
 		for _, ty := range types {
-			c := &histCase{K: "h", Type: ty, Ops: ops, Out: t.Out, Expect: exp, IDs: ids}
+			c := &histCase{K: "h", Type: ty, Ops: ops, Out: t.Out, Expect: exp, IDs: ids, Absent: absent}
 			runHistory(c, sum)
 			sum.Cases++
 			if sk != tk || t.Out == "panic" {
@@ -775,6 +994,13 @@ func replaySimple(in *core.Lines, args []string, seed int64, sum *core.Summary) 
 			}
 		}
 		distinct[sk+"|"+fmt.Sprint(t.Op)] = true
+	}
+	nalt := 0
+	for _, a := range alts {
+		nalt += len(a)
+	}
+	if nalt > 0 {
+		sum.Count("constructor_calls", nalt)
 	}
 	sum.Count("model_states", len(states))
 	sum.Count("model_transitions", len(distinct))
